@@ -167,3 +167,57 @@ def allowed_values(facts, target: str, grid=range(0, 4)):
         elif flow.dump(a) == target:
             allowed = {n for n in allowed if (n > 0) is pol}
     return allowed
+
+
+class _AsPrevious(ast.NodeTransformer):
+    """Specialise a condition of an enter() to ONE transition — the vehicle's current activity is known — and fold the constants:
+    `prev in (DISPATCH_STATION, CHARGE_QUEUEING) or <membership test>` is simply true for a queued vehicle."""
+
+    def __init__(self, type_const: str, class_name: str):
+        self.type_const, self.class_name = type_const, class_name
+
+    def visit_Compare(self, n):
+        self.generic_visit(n)
+        if len(n.ops) == 1 and flow.dump(n.left).endswith(".vehicle_state.vehicle_state_type"):
+            r = n.comparators[0]
+            names = [flow.dump(e) for e in r.elts] if isinstance(r, (ast.Tuple, ast.List, ast.Set)) else [flow.dump(r)]
+            has = any(x.endswith("." + self.type_const) for x in names)
+            if all(x.startswith("VehicleStateType.") for x in names):
+                op = n.ops[0]
+                if isinstance(op, (ast.In, ast.Eq)):
+                    return ast.Constant(value=has)
+                if isinstance(op, (ast.NotIn, ast.NotEq)):
+                    return ast.Constant(value=not has)
+        return n
+
+    def visit_Call(self, n):
+        self.generic_visit(n)
+        if flow.dump(n.func) == "isinstance" and len(n.args) == 2 and flow.dump(n.args[0]).endswith(".vehicle_state"):
+            ks = n.args[1].elts if isinstance(n.args[1], ast.Tuple) else [n.args[1]]
+            return ast.Constant(value=any(flow.dump(k) == self.class_name for k in ks))
+        return n
+
+    def visit_UnaryOp(self, n):
+        self.generic_visit(n)
+        if isinstance(n.op, ast.Not) and isinstance(n.operand, ast.Constant):
+            return ast.Constant(value=not n.operand.value)
+        return n
+
+    def visit_BoolOp(self, n):
+        self.generic_visit(n)
+        is_and = isinstance(n.op, ast.And)
+        vals = []
+        for v in n.values:
+            if isinstance(v, ast.Constant):
+                if bool(v.value) != is_and:
+                    return ast.Constant(value=not is_and)  # absorbing element
+                continue  # neutral element
+            vals.append(v)
+        if not vals:
+            return ast.Constant(value=is_and)
+        return vals[0] if len(vals) == 1 else ast.BoolOp(op=n.op, values=vals)
+
+
+def as_previous(a: ast.AST, type_const: str, class_name: str) -> ast.AST:
+    import copy
+    return ast.fix_missing_locations(_AsPrevious(type_const, class_name).visit(copy.deepcopy(a)))
